@@ -179,7 +179,9 @@ let () =
         let m = int_of_string (next ()) in
         let mods = List.init m (fun _ ->
           let b = nz () in let s = nz () in let cf = str () in let df = str () in let di = str () in
-          let ci = str () in let ver = ostr () in
+          let ci = str () in
+          let vsig = nz () in let vst = nz () in let fhi = nz () in let flo = nz () in let phi = nz () in let plo = nz () in
+          let ver = mk_version osi vsig vst fhi flo phi plo in
           { m_base = b; m_size = s; m_file = cf; m_debug_file = df; m_debug_id = di; m_code_id = ci; m_version = ver }) in
         expect "UNLM";
         let u = int_of_string (next ()) in
